@@ -112,6 +112,27 @@ fn main() {
             println!("supersampling(Bilinear,0) use_alpha={use_alpha}: {res:?} dst[0..4]={:?} (100,100,100,100 = stale; 255,255,255,100 = stale and alpha-divided)", &dst.buffer()[0..4]);
         }
     }
+    if want("fit-nan") {
+        // FitIntoDestination with a NaN centering: f64::clamp keeps NaN, the crop origin is NaN
+        for c in [(f64::NAN, 0.5), (0.5, f64::NAN)] {
+            let src = Image::new(640, 480, PixelType::U8);
+            let mut dst = Image::new(100, 100, PixelType::U8);
+            let mut r = Resizer::new();
+            let o = ResizeOptions::new().resize_alg(ResizeAlg::Nearest).fit_into_destination(Some(c));
+            println!("fit 640x480 -> 100x100 centering {c:?}: {:?}", r.resize(&src, &mut dst, &o));
+        }
+    }
+    if want("fit-extreme") {
+        // 2^27 x 1 into 1 x 2^27 with centering 1.0: crop width 2^-27, left = fl(2^27 - 2^-27) = 2^27
+        // = image width: the validator's `left < width` rejects the box the crate computed itself
+        for (sw, sh, dw, dh) in [(1u32 << 27, 1u32, 1u32, 1u32 << 27), (1 << 26, 1, 1, 1 << 26)] {
+            let src = Image::new(sw, sh, PixelType::U8);
+            let mut dst = Image::new(dw, dh, PixelType::U8);
+            let mut r = Resizer::new();
+            let o = ResizeOptions::new().resize_alg(ResizeAlg::Nearest).fit_into_destination(Some((1.0, 1.0)));
+            println!("fit {sw}x{sh} -> {dw}x{dh} centering (1,1): {:?}", r.resize(&src, &mut dst, &o));
+        }
+    }
     if want("oversized-dst") {
         let mut pixels = vec![U8::new(9); 32];
         let src = TypedImage::<U8>::from_pixels(8, 8, vec![U8::new(100); 64]).unwrap();
